@@ -342,7 +342,15 @@ def replay(rec):
 
         return True, f"quantize_weight/dequantize raised on a valid configuration: {type(e).__name__}: {e}\n{traceback.format_exc()[-800:]}", None
     if extra:
-        return True, "\n".join(extra), None
+        # a re-quantization difference inside a group that lies in a known-finding region is that finding
+        from optimum.quanto import quantize_weight as _qw  # noqa
+
+        regs = set()
+        wl = w.double()
+        for g in wq.groups_oracle(tuple(w.shape), inp["axis"], inp["group_size"]):
+            regs.add(wq.classify_group([float(wl[i]) for i in g], wq.qt(inp["qtype"]).bits, w.dtype))
+        regs.discard(None)
+        return True, "\n".join(extra), (sorted("C02/" + r for r in regs) if regs else None)
     if not probs:
         return False, f"C02 oracle holds on w={w.tolist()}", None
     regions = {p[3] for p in probs}
